@@ -554,3 +554,113 @@ func loadedFromField(v ssa.Value, named *types.Named, field int) bool {
 	}
 	return false
 }
+
+// checkSharedEngineFeatures (R12.9): an engine object is shared by every runtime using one CompilationCache, so what it
+// remembers from the FIRST runtime (its core features) must not decide whether a module validated by ANOTHER runtime compiles.
+func checkSharedEngineFeatures(c *core.Ctx) {
+	p := c.Pkg("internal/engine/interpreter")
+	if p == nil {
+		return
+	}
+	info := p.TypesInfo
+	n := 0
+	core.AllFuncDecls(p, func(fd *ast.FuncDecl) {
+		if core.RecvName(fd) != "engine" {
+			return
+		}
+		ast.Inspect(fd.Body, func(x ast.Node) bool {
+			call, ok := x.(*ast.CallExpr)
+			if !ok {
+				return true
+			}
+			for _, a := range call.Args {
+				se, ok := ast.Unparen(a).(*ast.SelectorExpr)
+				bare := ok && se.Sel.Name == "enabledFeatures"
+				if be, isB := ast.Unparen(a).(*ast.BinaryExpr); isB {
+					// widened by a constant feature set: accepted
+					mentions := false
+					ast.Inspect(be, func(y ast.Node) bool {
+						if s2, ok := y.(*ast.SelectorExpr); ok && s2.Sel.Name == "enabledFeatures" {
+							mentions = true
+						}
+						return true
+					})
+					if mentions {
+						n++
+						widened := false
+						if be.Op == token.OR {
+							for _, side := range []ast.Expr{be.X, be.Y} {
+								if k := constNameOf(info, side); strings.HasPrefix(k, "CoreFeatures") {
+									widened = true
+								}
+							}
+						}
+						c.Check(widened, "R12.9", "interpreter "+fd.Name.Name+": the engine's own feature set is widened before it decides about a module", a.Pos(),
+							"`"+core.ExprStr(a)+"`", "`"+core.ExprStr(a)+"` restricts the engine's remembered features further")
+					}
+					continue
+				}
+				if !bare {
+					continue
+				}
+				if t := info.Types[se.X].Type; t == nil || !strings.Contains(t.String(), "engine") {
+					continue
+				}
+				n++
+				c.Violate("R12.9", "interpreter "+fd.Name.Name+": the engine's own feature set does not decide about a module", a.Pos(),
+					"`"+core.ExprStr(call)+"` passes the features the engine was created with: the engine is shared through a CompilationCache, so these are the FIRST runtime's features; a module that the compiling runtime validated with its own (e.g. a multi-value block under the default features) is refused after a CoreFeaturesV1 runtime touched the cache")
+			}
+			return true
+		})
+	})
+	if n == 0 {
+		c.Discharge("R12.9", "the interpreter engine passes no remembered feature set to its lowering", 0, "no use of engine.enabledFeatures as an argument")
+	}
+}
+
+// checkWazerotestMemoryWidths (R14.10): the second api.Memory implementation (experimental/wazerotest) checks the number of
+// bytes it accesses.
+func checkWazerotestMemoryWidths(c *core.Ctx) {
+	p := c.Pkg("experimental/wazerotest")
+	if p == nil {
+		return
+	}
+	info := p.TypesInfo
+	width := map[string]int64{"PutUint16": 2, "PutUint32": 4, "PutUint64": 8, "Uint16": 2, "Uint32": 4, "Uint64": 8}
+	n := 0
+	core.AllFuncDecls(p, func(fd *ast.FuncDecl) {
+		if core.RecvName(fd) != "Memory" {
+			return
+		}
+		var checked int64 = -1
+		var acc int64 = -1
+		var accPos token.Pos
+		ast.Inspect(fd.Body, func(x ast.Node) bool {
+			call, ok := x.(*ast.CallExpr)
+			if !ok {
+				return true
+			}
+			if se, ok := call.Fun.(*ast.SelectorExpr); ok {
+				if se.Sel.Name == "isOutOfRange" && len(call.Args) == 2 {
+					if v, ok := core.ConstVal(info, call.Args[1]); ok {
+						checked = v
+					}
+				}
+				if w, ok := width[se.Sel.Name]; ok && strings.Contains(core.ExprStr(se.X), "LittleEndian") {
+					acc, accPos = w, call.Pos()
+				}
+			}
+			return true
+		})
+		if acc < 0 || checked < 0 {
+			return
+		}
+		n++
+		c.Check(acc == checked, "R14.10", "wazerotest.Memory."+fd.Name.Name+" checks the bytes it accesses", accPos,
+			fmt.Sprintf("%d bytes checked and accessed", acc),
+			fmt.Sprintf("%d bytes are checked but %d are accessed: near the end of the memory the accessor panics (index out of range) instead of returning false", checked, acc))
+	})
+	if n < 4 {
+		c.Undecided("R14.10", "fixed-width accessors of wazerotest.Memory", 0, fmt.Sprintf("only %d found", n))
+	}
+}
